@@ -29,4 +29,5 @@ DeepFam == {DChain(n) : n \in {3, 4, 5, 6, 8, 10}} \cup {EChain(n) : n \in {2, 3
 SpecDeep == m \in DeepFam /\ b1 = EmptyMap /\ b2 = EmptyMap /\ [][UNCHANGED genvars]_genvars
 cScalars == {VS("x"), VS("<&")}
 cConts == {EmptyMap, EmptyList}
+cScalars1 == {VS("x")}       \* (one key, one scalar, six nodes: lists inside lists with maps inside)
 =============================================================================
